@@ -329,7 +329,7 @@ func genScenario(t *rapid.T) (scenario, slog.Attrs) {
 	sc.Layout = rapid.SampledFrom([]string{"", "", "", time.Kitchen, time.Stamp, "15:04", "15:04:05.000"}).Draw(t, "ownTimeLayout")
 	sc.Name = rapid.SampledFrom([]string{"", "", "", "x\" level=\"error", "two\nlines", "tab\there", "back\\slash", "ctl\x01x", "\u00fcn\u00ef c\u00f6de", "sp ace", "eq=sign", "trailing\\"}).Draw(t, "loggerName")
 	sc.Msg = vlib.GenMsg().Draw(t, "msg")
-	if sc.Sev == slog.AlwaysLevel && strings.Trim(sc.Msg, " \t\r\n") == "" {
+	if sc.Sev == slog.AlwaysLevel && vlib.LooksBlank(sc.Msg) {
 		sc.Msg += "x" // a blank Print is delivered as a bare newline (property C02), not as a record
 	}
 	strs := vlib.GenAnyString()
@@ -387,7 +387,7 @@ func FuzzLogfmt(f *testing.F) {
 			args = append(args, slog.NewAttr(a.Key, a.Val.V))
 		}
 		args = append(args, slog.Group(key+"4", slog.NewAttr(key, attrs[4].Group[0].Val.V)))
-		if strings.Trim(msg, " \t\r\n") == "" {
+		if vlib.LooksBlank(msg) {
 			msg += "x"
 		}
 		run(t, "FuzzLogfmt", scenario{Named: true, Sev: slog.InfoLevel, Msg: msg, Attrs: attrs, Args: args}, nil)
